@@ -183,6 +183,11 @@ var c11probes = []string{
 	"global L\nparam p\nf := func(n) {\n  r := 0\n  for i := 0; i < n; i++ {\n    if i % 2 == 0 {\n      continue\n    }\n    if i > 6 {\n      break\n    }\n    r += i\n  }\n  return r > 5 ? r : -r\n}\nreturn [f(p), f(4), f(10)]",
 	"global L\nparam p\nf := func(n) {\n  return [1, 2][n]\n}\ng := func(n) {\n  if n > 0 {\n    return f(n + 1)\n  }\n  return f(0)\n}\nreturn g(p)",
 	"global L\nparam p\nm := import(\"mod0\")\nreturn m.bump(p) + m.get()",
+	// functions with identical bodies (identical instruction bytes) on different lines, each with jumps; the error is
+	// raised in the first / the second / the third of them, or in a twin that lives in a module
+	"global L\nparam p\na := func(n) {\n  if n > 0 {\n    return [1, 2][n + 5]\n  }\n  return n\n}\n\nb := func(n) {\n  if n > 0 {\n    return [1, 2][n + 5]\n  }\n  return n\n}\n\n\nc := func(n) {\n  if n > 0 {\n    return [1, 2][n + 5]\n  }\n  return n\n}\nreturn [a(p - 7), b(p - 1), c(p)]",
+	"global L\nparam p\nfs := []\nfor i := 0; i < 2; i++ {\n  fs = append(fs, func(n) {\n    for k := 0; k < 2; k++ {\n      if n == k {\n        throw error(\"first\")\n      }\n    }\n    return n\n  })\n}\nfs = append(fs, func(n) {\n    for k := 0; k < 2; k++ {\n      if n == k {\n        throw error(\"first\")\n      }\n    }\n    return n\n  })\nreturn [fs[0](p + 5), fs[2](p)]",
+	"global L\nparam p\ntw := func(n) {\n  try {\n    if n > 0 {\n      return 1 / (n - n)\n    }\n  } finally {\n    L(n)\n  }\n  return 0\n}\nm := import(\"twin\")\nreturn [tw(p - 7), m(p)]",
 }
 
 func (m c11) one(c *core.Ctx, p *Program, vecs [][]ugo.Object, optLimit int) bool {
@@ -375,7 +380,8 @@ func (m c11) Run(c *core.Ctx) {
 			if idx%c.NBatch != c.Batch {
 				continue
 			}
-			p := &Program{Src: src, Modules: map[string]string{"mod0": "global L\nstate := 1\nreturn {bump: func(d) { if d > 0 { state += d }; return state }, get: func() { return state > 1 ? state : -1 }}\n"}}
+			p := &Program{Src: src, Modules: map[string]string{"mod0": "global L\nstate := 1\nreturn {bump: func(d) { if d > 0 { state += d }; return state }, get: func() { return state > 1 ? state : -1 }}\n",
+				"twin": "global L\n// the same function text as tw in the main script, on other lines\n\nreturn func(n) {\n  try {\n    if n > 0 {\n      return 1 / (n - n)\n    }\n  } finally {\n    L(n)\n  }\n  return 0\n}\n"}}
 			if !c.Begin(func() string { return src }) {
 				continue
 			}
